@@ -161,18 +161,143 @@ func (p *Path) take(c *Term, d bool) {
 	}
 }
 
-// check asks the solver for pc ∧ extra.
+// check asks the solver for pc ∧ extra. Only the constraints that share
+// variables (transitively) with extra are sent: the rest of the path condition
+// is satisfiable (the path keeps a model of it) and variable-disjoint, so the
+// answer is the same and the models combine. Answers are cached per worker by
+// constraint set.
 func (p *Path) check(extra *Term) (Result, Model) {
-	cs := make([]*Term, 0, len(p.pc)+1)
-	cs = append(cs, p.pc...)
+	w := p.w
+	cs := p.pc
 	if extra != nil {
-		cs = append(cs, extra)
+		cs = w.slice(p.pc, extra)
 	}
-	res, m := p.w.solver.Check(cs, p.vars)
+	ids := make([]int, len(cs))
+	for i, c := range cs {
+		ids[i] = int(c.id)
+	}
+	sort.Ints(ids)
+	var kb []byte
+	for _, id := range ids {
+		kb = append(kb, byte(id), byte(id>>8), byte(id>>16), byte(id>>24))
+	}
+	key := string(kb)
+	if r, ok := w.qcache[key]; ok {
+		w.nCacheHits++
+		return r.res, r.m
+	}
+	seen := map[int32]bool{}
+	var vars []*Term
+	for _, c := range cs {
+		for _, v := range w.varsOf(c) {
+			if !seen[v] {
+				seen[v] = true
+				vars = append(vars, w.st.terms[v])
+			}
+		}
+	}
+	res, m := w.solver.Check(cs, vars)
 	if res == RUnknown {
-		p.w.noteUnknown(p, extra)
+		w.noteUnknown(p, extra)
+	} else {
+		if len(w.qcache) > 200000 {
+			w.qcache = map[string]qres{}
+		}
+		w.qcache[key] = qres{res, m}
 	}
 	return res, m
+}
+
+type qres struct {
+	res Result
+	m   Model
+}
+
+// varsOf returns the sorted ids of the variables occurring in t.
+func (w *Worker) varsOf(t *Term) []int32 {
+	if t.op == OpConst {
+		return nil
+	}
+	if v, ok := w.vcache[t.id]; ok {
+		return v
+	}
+	var out []int32
+	if t.op == OpVar {
+		out = []int32{t.id}
+	} else {
+		for i := 0; i < int(t.n); i++ {
+			out = mergeSorted(out, w.varsOf(t.a[i]))
+		}
+	}
+	w.vcache[t.id] = out
+	return out
+}
+
+func mergeSorted(a, b []int32) []int32 {
+	if len(a) == 0 {
+		return b
+	}
+	if len(b) == 0 {
+		return a
+	}
+	out := make([]int32, 0, len(a)+len(b))
+	i, j := 0, 0
+	for i < len(a) && j < len(b) {
+		switch {
+		case a[i] < b[j]:
+			out = append(out, a[i])
+			i++
+		case a[i] > b[j]:
+			out = append(out, b[j])
+			j++
+		default:
+			out = append(out, a[i])
+			i++
+			j++
+		}
+	}
+	out = append(out, a[i:]...)
+	return append(out, b[j:]...)
+}
+
+// slice selects the constraints of pc connected to extra through shared
+// variables and returns them followed by extra.
+func (w *Worker) slice(pc []*Term, extra *Term) []*Term {
+	in := map[int32]bool{}
+	for _, v := range w.varsOf(extra) {
+		in[v] = true
+	}
+	taken := make([]bool, len(pc))
+	for changed := true; changed; {
+		changed = false
+		for i, c := range pc {
+			if taken[i] {
+				continue
+			}
+			vs := w.varsOf(c)
+			hit := false
+			for _, v := range vs {
+				if in[v] {
+					hit = true
+					break
+				}
+			}
+			if hit {
+				taken[i] = true
+				changed = true
+				for _, v := range vs {
+					in[v] = true
+				}
+			}
+		}
+	}
+	out := make([]*Term, 0, len(pc)+1)
+	for i, c := range pc {
+		if taken[i] {
+			out = append(out, c)
+		}
+	}
+	return append(out, extra)
 }
 
 // branch decides a symbolic condition, forking the exploration.
